@@ -2,6 +2,7 @@
 real compiler -> artefacts -> Lean driver (elaborator, denotation, circuit semantics, wiring check)
 -> classification of every failure as listed finding or violation."""
 from __future__ import annotations
+import os
 
 import collections
 
@@ -34,11 +35,17 @@ def f19_deciders(rec):
         if op.get("kind") != "IRDecider" or not op.get("conditions"):
             continue
         by_sig = collections.defaultdict(set)
+        stm = rec.get("signal_type_map") or {}
+
+        def wire_name(t):
+            v = stm.get(t, t)
+            return v.get("name") if isinstance(v, dict) else v
         for c in op["conditions"]:
             for k in ("first_operand", "second_operand"):
                 o = c.get(k)
                 if isinstance(o, dict) and "sig" in o:
-                    by_sig[o["sig"]].add(o["src"])
+                    # the name the signal travels under (an untyped value may have been given a name in use: F07)
+                    by_sig[wire_name(o["sig"])].add(o["src"])
         if any(len(v) > 1 for v in by_sig.values()):
             out.add(op["id"])
     return out
@@ -112,6 +119,10 @@ def classify_mismatch(rec, verdict, mm):
     if pol:
         p = pol[0]
         return ("F23", f"wildcard operand of {p['sink']} also sees {p['producer']}, which is planned for one of its scalar operands")
+    dbl = [p for p in wire.get("doubled", []) if p["sink"] in cone]
+    if dbl:
+        p = dbl[0]
+        return ("F23", f"wildcard operand and copy output of {p['sink']} together read both colours, and {p['producer']} (also its scalar operand) is wired on both: its signal is counted twice")
     uns = [u for u in wire.get("unselected", []) if u[1] in cone]
     if uns:
         return ("F18", f"{uns[0][0]} reaches {uns[0][1]} only on a colour that the consuming operand does not select")
@@ -212,6 +223,30 @@ def run_semantic(res, sources, opts=None, count=30, extra_case=None, label="prog
             # the framework itself is inconsistent -- never hide it
             res.violation({"reason": "FRAMEWORK INCONSISTENCY: scalar_end_to_end applies but the search found a disagreement",
                            "source": c["source"], "mismatch": bad[0], "match": mt})
+        # stateless programs that the search found nothing against but the validator does not accept: the property is
+        # not shown to hold for them; either a listed finding's signature is present in the cone of the result, or it
+        # is reported (without a failing input)
+        if not v.get("stateful") and not mms and obs_names:
+            unexpl = []
+            for name in obs_names:
+                if name in pnames:
+                    continue
+                cl = classify_mismatch(c, v, {"name": name, "expected": {}, "got": {}})
+                if cl:
+                    res.known(cl[0], cl[1], example={"source": c["source"], "unproved": name})
+                    stats["finding(static):" + cl[0]] += 1
+                else:
+                    unexpl.append(name)
+            if unexpl:
+                stats["unproved_unexplained"] += 1
+                info["unproved_unexplained"] = unexpl
+                if os.environ.get("VERIF_UNPROVED_IS_VIOLATION", "1") == "1":
+                    res.violation({"reason": "the verified validator (Facto.checkAll / checkRanked / obsOK, theorem Facto.scalar_end_to_end) does not accept "
+                                             "this build, the failing-input search found no disagreement and no listed finding's signature is present: "
+                                             "the property is no longer shown to hold for these results",
+                                   "unproved": unexpl, "source": c["source"], "match": {k: mt.get(k) for k in ("all", "ranked", "failing_nodes", "pruned")},
+                                   "obligation": "Facto.scalar_end_to_end / bundle_end_to_end / enable_end_to_end (per-program premises)"},
+                                  failing_input=False)
         hist = v.get("history") or {}
         hms = hist.get("mismatches", [])
         its = hist.get("iterate", [])
